@@ -20,6 +20,7 @@ All rights reserved.
 #include "simulator/packet.hpp"
 
 #include <functional>
+#include <algorithm> // for find
 #include <boost/beast/core/bind_handler.hpp>
 
 #include <cinttypes>
@@ -250,24 +251,24 @@ namespace ip {
 				check_accept_queue();
 				return;
 			case aux::packet::type_t::error:
-				assert(false); // something is not wired up correctly
-				if (m_accept_handler)
+			{
+				// the connector gave up. If its connection still waits in the
+				// queue, forget it. If it has been accepted in the meantime, pass
+				// the reset on to the socket it was accepted into
+				auto const it = std::find(m_incoming_conns.begin()
+					, m_incoming_conns.end(), p.channel);
+				if (it != m_incoming_conns.end())
 				{
-					m_accept_into = nullptr;
-					m_remote_endpoint = nullptr;
-					post(m_io_service, bind_handler(std::exchange(m_accept_handler, nullptr)
-						, boost::system::error_code(error::operation_aborted)));
+					m_incoming_conns.erase(it);
 				}
-				if (m_accept_handler2)
+				else if (p.channel && !p.channel->hops[1].empty()
+					&& p.channel->hops[1].last() != m_forwarder)
 				{
-					m_accept_into = nullptr;
-					m_remote_endpoint = nullptr;
-					post(m_io_service, [&ios = m_io_service, h = std::exchange(m_accept_handler2, nullptr)] () mutable {
-						h(boost::system::error_code(error::operation_aborted)
-							, ip::tcp::socket(ios));
-					});
+					p.hops = route().append(p.channel->hops[1].last());
+					forward_packet(std::move(p));
 				}
 				return;
+			}
 			default:
 				// if this happens, it implies that an incoming connection sent
 				// payload before receiving a syn_ack. Alternatively that the
